@@ -15,6 +15,7 @@ mod runner;
 mod gen;
 mod scen_body;
 mod scen_head;
+mod scen_redirect;
 mod scen_graph;
 mod scen_exchange;
 mod world;
@@ -25,6 +26,14 @@ mod scen_send;
 use runner::Prop;
 
 const A_COMMON: &str = "the simulated peer, transport, clock and caller loop are reference stubs written for this harness; http, httparse and url are exercised only as far as generated inputs reach";
+
+fn c02_all(ctx: &mut ctx::Ctx) -> ctx::R {
+    if ctx.sub == 2 {
+        scen_redirect::c02_depth(ctx)
+    } else {
+        scen_req::c02(ctx)
+    }
+}
 
 fn props() -> Vec<Prop> {
     vec![
@@ -143,10 +152,10 @@ fn props() -> Vec<Prop> {
         Prop {
             id: "C02",
             scenario: "head",
-            run: scen_req::c02,
+            run: c02_all,
             quick: 80_000,
             thorough: 3_000_000,
-            subs: &["heads"],
+            subs: &["heads", "heads", "redirect-depth"],
             level: "exploration",
             rule: "generated absolute-URI requests C17 accepts (9 methods, 1.0/1.1, 0..12 original and 0..6 caller-added headers with repeated names and obs-text values, explicit or derived Host, CL / chunked / defaulted framing in original or added headers, despite-method, Expect) on Flow and both Call constructors; the one-shot head is strictly parsed and compared with the reference head, then a second instance is written under a drawn sequence of output sizes biased to len(next line)+{-1,0,+1}, with queries and extra writes after completion, and the flow is continued into the body state and a body is sent; non-trivial = >=2 write calls; distinct = abstract trace (fit class per call, line index, result)",
             assumptions: &[A_COMMON, "caller-added headers <= 60 (documented capacity 64 incl. two synthesised)", "a synthesised Host may carry host or host:port; the position of synthesised lines is not constrained"],
@@ -236,6 +245,62 @@ fn props() -> Vec<Prop> {
             assumptions: &[A_COMMON, "permitted = callable on the typestate the driver holds, <= 60 added headers", "after a repeated decisive call only 'no panic' and 'counts bounded' are demanded; the successor oracle uses the first decision", "a look at further server bytes after a consumed 100 makes the Await100 successor undecided"],
             cells_total: 77,
             cells_what: "(state x call kind) pairs (64) + graph edges taken (13)",
+            exhaustive_note: "",
+        },
+        Prop {
+            id: "C13",
+            scenario: "redirect-world",
+            run: scen_redirect::c13,
+            quick: 60_000,
+            thorough: 3_000_000,
+            subs: &["chains"],
+            level: "exploration",
+            rule: "redirect chains of 1..4 hops in a world of origins {a,b,c}.test x {http,https} x ports; the original request carries unique Authorization / Cookie / Content-Length secrets; every hop is a real exchange (one-shot in 3 of 4 runs, sliced otherwise) whose head is read at the receiving origin by the strict reference parser; Locations drawn from absolute (both schemes, ports), scheme-relative, path-absolute and relative forms so that chains leave and return, downgrade and upgrade; both policies; all methods; statuses 300..399; non-trivial = at least one followed hop; distinct = abstract trace (depth, status, Location form, host/scheme change)",
+            assumptions: &[A_COMMON, "only-if direction as stated: presence of Authorization is not demanded", "Locations inside the RFC 3986 / WHATWG common grammar; the original URI has no dot segments"],
+            cells_total: 0,
+            cells_what: "",
+            exhaustive_note: "",
+        },
+        Prop {
+            id: "C14",
+            scenario: "redirect-world",
+            run: scen_redirect::c14,
+            quick: 60_000,
+            thorough: 3_000_000,
+            subs: &["chains"],
+            level: "exploration",
+            rule: "as C13 with the rich Location grammar (absolute with/without ports, scheme-relative, path-absolute, path-relative with ./ and ../, dot-only, query-only, empty, authority-only, fragments, several Location fields) plus a must-error class (missing, non-UTF-8, unterminated IPv6 literal, port > 65535, non-numeric port) and a garbage class; oracle: Flow<Prepare>::uri() after as_new_flow = RFC 3986 5.2 resolution of the last Location against the current hop's URI (independent resolver), request line and derived Host at the receiving origin, chains of up to 4 hops; distinct = abstract trace",
+            assumptions: &[A_COMMON, "lower-case hosts, path/query characters from [a-z0-9._~-], no empty path segments; comparison modulo default ports and host case", "Host clause only when the Host header was derived"],
+            cells_total: 0,
+            cells_what: "",
+            exhaustive_note: "",
+        },
+        Prop {
+            id: "C15",
+            scenario: "redirect-world",
+            run: scen_redirect::c15,
+            quick: 2 * scen_redirect::C15_CELLS as u64,
+            thorough: 200 * scen_redirect::C15_CELLS as u64,
+            subs: &["cells"],
+            level: "exploration",
+            rule: "schedule-free: the run index enumerates all 3600 cells method(9) x status(300..399) x policy(2) x response body(2) for the first hop; a second hop continues with a drawn status so that hop k's method feeds hop k+1; 1 in 40 hops answers a non-3xx status; oracle: Redirect state iff 3xx != 304, status() reports it, as_new_flow None exactly for 307/308 with POST/PUT/PATCH/DELETE, method per table checked on the new flow and at the receiving origin; every run is non-trivial",
+            assumptions: &[A_COMMON],
+            cells_total: scen_redirect::C15_CELLS,
+            cells_what: "method x status 300..399 x auth policy x response body yes/no (first hop)",
+            exhaustive_note: "all 3600 first-hop cells are enumerated at least twice in every quick run",
+        },
+        Prop {
+            id: "C16",
+            scenario: "redirect-world",
+            run: scen_redirect::c16,
+            quick: 60_000,
+            thorough: 3_000_000,
+            subs: &["chains"],
+            level: "exploration",
+            rule: "as C13; at every Prepare (redirect depth 0..3) the simulated cookie jar adds 0..60 headers with hop-tagged unique values, names from {cookie, authorization, connection, host, content-length, transfer-encoding} and random tokens, trimmed to requests C17 accepts; oracle at the receiving origin: every added header is on the wire, in the order added, ahead of every original header; distinct = abstract trace",
+            assumptions: &[A_COMMON, "caller-added headers <= 60"],
+            cells_total: 0,
+            cells_what: "",
             exhaustive_note: "",
         },
     ]
